@@ -231,7 +231,12 @@ func (c *Client) ExchangeWithConnContext(ctx context.Context, m *Msg, co *Conn) 
 		for {
 			r, err = co.ReadMsg()
 			// Ignore replies with mismatched IDs because they might be
-			// responses to earlier queries that timed out.
+			// responses to earlier queries that timed out. This includes
+			// datagrams that carry another ID and fail to decode or verify:
+			// ReadMsg returns the partial message together with the error.
+			if r != nil && r.Id != m.Id {
+				continue
+			}
 			if err != nil || r.Id == m.Id {
 				break
 			}
